@@ -1,5 +1,7 @@
 import BigDec.Driver.C01
 import BigDec.Driver.C06
+import BigDec.Driver.C07
+import BigDec.Driver.C18
 /-! Line-protocol driver: one case per input line
       `<prop> \t <op> \t <arg>… \t => \t <implementation output>`
     one verdict per output line (see `Proto.Verdict.render`). Imports model + spec only. -/
@@ -9,6 +11,8 @@ def dispatch (prop op : String) (args : List String) (impl : String) : Verdict :
   match prop with
   | "C01" => Driver.C01.handle op args impl
   | "C06" => Driver.C06.handle op args impl
+  | "C07" => Driver.C07.handle op args impl
+  | "C18" => Driver.C18.handle op args impl
   | _ => badInput ("unknown property " ++ prop)
 
 def splitArrow (fs : List String) : List String × String :=
